@@ -72,13 +72,22 @@ def ret_summary(facts, fid):
     if g is not None and _is_enum_ty(g.raw.get('ret')):
         vals = set()
         ok = True
+        def consts(x):
+            x = g.strip(x, casts=True)
+            if x is not None and x['k'] == 'ConditionalOperator':
+                a, b = consts(g.ch(x)[1]), consts(g.ch(x)[2])
+                return None if a is None or b is None else a | b
+            c = const_of(g, x)
+            if c is None or c in ('T', 'F', 'null', 'ZERO'):
+                return None
+            return {c}
         for n in g.all_nodes():
             if n['k'] == 'ReturnStmt':
-                c = const_of(g, g.ch(n)[0]) if g.ch(n) else None
-                if c is None or c in ('T', 'F', 'null', 'ZERO'):
+                cs = consts(g.ch(n)[0]) if g.ch(n) else None
+                if cs is None:
                     ok = False
                     break
-                vals.add(c)
+                vals |= cs
         if ok and vals:
             res = frozenset(vals)
     _RET_MEMO[key] = res
@@ -149,8 +158,8 @@ def cond_shape(f, cond):
         return flip, ('term', ('other', 'none'))
     if n['k'] == 'DeclRefExpr' and n.get('dk') in ('var', 'parm'):
         if (n.get('ty') or '').endswith('*'):
-            return flip, ('nonnull', n['id'])
-        return flip, ('truth', n['id'])
+            return flip, ('nonnull', n['id'], n.get('ty'))
+        return flip, ('truth', n['id'], n.get('ty'))
     if n['k'] == 'BinaryOperator' and n.get('op') in ('==', '!='):
         c = f.ch(n)
         a, b = f.strip(c[0], casts=True), f.strip(c[1], casts=True)
@@ -162,8 +171,8 @@ def cond_shape(f, cond):
                         flip = not flip
                     if cy == 'null':
                         # (x == nullptr) true  <=> x is null
-                        return (not flip), ('nonnull', x['id'])
-                    return flip, ('eq', x['id'], cy)
+                        return (not flip), ('nonnull', x['id'], x.get('ty'))
+                    return flip, ('eq', x['id'], cy, x.get('ty'))
     if n['k'] == 'CXXOperatorCallExpr' and n.get('cn') in ('operator==', 'operator!='):
         args = [f.strip(f.node(a), casts=True) for a in n.get('args', [])]
         if len(args) == 2:
@@ -173,11 +182,11 @@ def cond_shape(f, cond):
                     if cy is not None:
                         if n['cn'] == 'operator!=':
                             flip = not flip
-                        return flip, ('eq', x['id'], cy)
+                        return flip, ('eq', x['id'], cy, x.get('ty'))
     return flip, ('term', term(f, n))
 
 
-def refine(f, blk, idx, fs, assume=None):
+def refine(f, blk, idx, fs, assume=None, tracked=None):
     """Refine the fact set along successor idx of blk (None = edge infeasible).
 
     `assume` maps var_id -> required value ('T','F','nonnull','null', enum) for facts the
@@ -186,10 +195,16 @@ def refine(f, blk, idx, fs, assume=None):
     t = blk.term
     if not t or len(blk.succ) != 2 or 'cond' not in t:
         return fs
-    flip, shape = cond_shape(f, t['cond'])
+    cache = f.__dict__.setdefault('_cond_shape_cache', {})
+    if blk.id not in cache:
+        cache[blk.id] = cond_shape(f, t['cond'])
+    flip, shape = cache[blk.id]
     taken_true = (idx == 0)
     truth = taken_true != flip  # truth value of the un-negated shape on this edge
     kind = shape[0]
+    if tracked is not None and kind in ('truth', 'eq') and not tracked((shape[-1] or '')):
+        if not (assume and shape[1] in assume):
+            return fs
     if kind == 'truth':
         var = shape[1]
         want = 'T' if truth else 'F'
@@ -318,3 +333,154 @@ def params_of_type(f, pred):
 
 def find_calls(f, cq=None, cn=None):
     return [n for n in f.all_nodes() if is_call(n, cq=cq, cn=cn)]
+
+
+# ---------------------------------------------------------------------------
+# Interprocedural exploration by inlining (explicit bound), and simple call-graph helpers
+# ---------------------------------------------------------------------------
+
+class Inliner:
+    """Runs a rule's step/branch over a function and, for calls the rule does not handle itself,
+    over the bodies of yakushima callees (depth-bounded).  `step(g, ctx, n, st)` returns a state,
+    a list of states, None (path ends) or Inliner.PASS (not handled: inline if possible, else keep st).
+    """
+    PASS = object()
+
+    def __init__(self, facts, step, branch=None, should_inline=None, maxdepth=3):
+        self.facts = facts
+        self.step = step
+        self.branch = branch
+        self.should_inline = should_inline or (lambda g: True)
+        self.maxdepth = maxdepth
+        self.visits = 0
+        self.inlined = set()
+
+    def _mk(self, g, depth, stack):
+        def step(ctx, n, st):
+            r = self.step(g, ctx, n, st)
+            if r is not Inliner.PASS:
+                return r
+            if n['k'] in CALL_KINDS and depth < self.maxdepth:
+                tg = self.facts.get(n.get('callee'))
+                if tg is not None and tg.blocks and tg.fid not in stack and self.should_inline(tg):
+                    self.inlined.add(tg.fid)
+                    ex = Explorer(tg, *self._mk(tg, depth + 1, stack | {tg.fid}))
+                    ex.run(st)
+                    self.visits += ex.visits
+                    outs = set(ex.exit_states)
+                    return list(outs)
+            return st
+
+        def branch(ctx, blk, idx, st):
+            if self.branch is None:
+                return st
+            return self.branch(g, ctx, blk, idx, st)
+        return step, branch
+
+    def run(self, f, init):
+        ex = Explorer(f, *self._mk(f, 0, frozenset([f.fid])))
+        ex.run(init)
+        self.visits += ex.visits
+        return ex
+
+
+def callees(facts, f, virtual_targets=True):
+    """Funcs with bodies directly called from f (virtual calls resolved to all overriders)."""
+    out = {}
+    for n in f.all_nodes():
+        if n['k'] in CALL_KINDS or n['k'] == 'CXXConstructExpr':
+            cid = n.get('callee')
+            g = facts.get(cid)
+            if g is not None:
+                out[g.fid] = g
+            if n.get('virtual') and virtual_targets:
+                for h in facts.functions.values():
+                    if cid in (h.raw.get('overrides') or []):
+                        out[h.fid] = h
+        if n['k'] == 'LambdaExpr' and n.get('lambda'):
+            g = facts.get(n['lambda'])
+            if g is not None:
+                out[g.fid] = g
+        if n['k'] == 'DeclRefExpr' and n.get('dk') == 'func':
+            g = facts.get(n.get('id'))
+            if g is not None:
+                out[g.fid] = g  # function used as a value (e.g. std::thread entry)
+    return list(out.values())
+
+
+def reachable_funcs(facts, roots, stop=None):
+    seen = {}
+    st = list(roots)
+    while st:
+        f = st.pop()
+        if f.fid in seen:
+            continue
+        seen[f.fid] = f
+        if stop and stop(f):
+            continue
+        st.extend(callees(facts, f))
+    return seen
+
+
+def global_ref(f, n):
+    """Qualified name of the global / static member an expression is rooted in, else None."""
+    r = root(f, n)
+    if r[0] == 'var':
+        return r[1] if '@' not in r[1] else None
+    return None
+
+
+def member_of_this(f, n):
+    """Qualified field name if n is rooted at this->field (possibly through casts), else None."""
+    n = f.strip(n, casts=True)
+    while n is not None and n['k'] == 'MemberExpr':
+        b = f.strip(f.ch(n)[0], casts=True)
+        if b is not None and b['k'] == 'CXXThisExpr':
+            return n['member']
+        n = b
+    return None
+
+
+ATOMIC_WRITE = ('store', 'compare_exchange_weak', 'compare_exchange_strong', 'exchange', 'fetch_add', 'fetch_sub',
+                'fetch_or', 'fetch_and', 'operator=', 'operator++', 'operator--', 'operator+=', 'operator-=')
+
+
+def field_writes(f):
+    """Fields of `this` that f itself writes: [(qualified field, node, how)]."""
+    out = []
+    for n in f.all_nodes():
+        k = n['k']
+        if k in ('BinaryOperator', 'CompoundAssignOperator') and (n.get('op') == '=' or n.get('op', '').endswith('=')) \
+                and n.get('op') not in ('==', '!=', '<=', '>='):
+            m = member_of_this(f, f.ch(n)[0])
+            if m:
+                out.append((m, n, 'assign'))
+        elif k == 'UnaryOperator' and n.get('op') in ('++', '--'):
+            m = member_of_this(f, f.ch(n)[0])
+            if m:
+                out.append((m, n, n['op']))
+        elif k == 'CXXMemberCallExpr' and n.get('cn') in ATOMIC_WRITE and (n.get('mcls') or '').startswith('std::'):
+            m = member_of_this(f, call_recv(f, n))
+            if m:
+                out.append((m, n, n['cn']))
+        elif k == 'CXXOperatorCallExpr' and n.get('cn') in ATOMIC_WRITE:
+            a = [f.node(x) for x in n.get('args', [])]
+            if a:
+                m = member_of_this(f, a[0])
+                if m:
+                    out.append((m, n, n['cn']))
+        elif k == 'AtomicExpr' and ('store' in n.get('aop', '') or 'exchange' in n.get('aop', '')
+                                    or 'fetch' in n.get('aop', '')):
+            c = f.ch(n)
+            if c:
+                m = member_of_this(f, c[0])
+                if m:
+                    out.append((m, n, n['aop']))
+        elif k in CALL_KINDS and n.get('cq') in ('yakushima::storeReleaseN', 'yakushima::storeRelaxed',
+                                                'yakushima::storeRelease', 'yakushima::weakCompareExchange'):
+            a = call_args(f, n)
+            if a:
+                m = member_of_this(f, a[0])
+                if m:
+                    out.append((m, n, n['cn']))
+    return out
